@@ -44,6 +44,11 @@ type LinkCase struct {
 	// session (it reports online usage, so it has a rating / account round of its own, subject to fates[0]); the
 	// following operations are updates of the first session
 	Release2 bool `json:"release2"`
+	// Recharge: 150 ms before every update a recharge notification for ANOTHER rating group of the subscriber arrives (from
+	// the web console, on its own connection) and is served concurrently.  A recharge uses neither Diameter link (DiamLink:
+	// requests of one subscriber are sent one at a time, under the subscriber lock), so the scripted fates meet the update's
+	// own requests and every answer is attributed as without it
+	Recharge bool `json:"recharge"`
 }
 
 // DensePos reports whether the fates are to be laid over consecutive rating requests of one update.
@@ -344,6 +349,12 @@ func RunLink(prefix, in, out string) error {
 			}
 			upd := fmt.Sprintf(`{"subscriberIdentifier":%q,"invocationSequenceNumber":%d,"multipleUnitUsage":[{"ratingGroup":1,"requestedUnit":{"totalVolume":%d},"usedUnitContainer":[{"quotaManagementIndicator":"ONLINE_CHARGING","totalVolume":0,"localSequenceNumber":%d}]}]}`,
 				supi, n+2, 100000*(n+1), n+1)
+			if c.Recharge {
+				go func() {
+					_ = env.Do("PUT", "/nchf-convergedcharging/v3/recharging/"+supi+"_2", nil, nil, 30*time.Second)
+				}()
+				time.Sleep(150 * time.Millisecond)
+			}
 			t0 := time.Now()
 			okStatus := 200
 			var res HTTPResult
